@@ -31,6 +31,12 @@ type Initializer interface {
 func tryInitDefaults(val reflect.Value) reflect.Value {
 	t := val.Type()
 
+	if t.Kind() == reflect.Interface && val.IsNil() {
+		// an interface type that lists InitDefaults, holding nothing: there
+		// is no value to initialize
+		return val
+	}
+
 	var initializer Initializer
 	if t.Implements(iInitializer) {
 		initializer = val.Interface().(Initializer)
